@@ -59,6 +59,9 @@ pub enum UOp {
     WaitNotify,
     /// event loop: tick; while running { wait for a notification; tick } (bounded)
     EventLoop(u32),
+    /// like EventLoop, but `update_config` is called after every tick that reported running,
+    /// before waiting for the notification
+    EventLoopCfg(u32),
     /// repeat tick (yielding to the worker) until it reports not running (bounded)
     Drain(u32),
     /// open a gate: a writer held inside its fill callback (IOp::PushHeld / ExtendHeld) may go on
@@ -435,10 +438,15 @@ pub fn run_scenario(scn: &Scenario, prefix: &[usize]) -> RunResult {
                         shared.obs.lock().unwrap().push(Obs::WaitNotify { t });
                         exec.point("U:wait_notify", 0, Wait::Notify(tick_notify_base));
                     }
-                    UOp::EventLoop(horizon) => {
+                    UOp::EventLoop(horizon) | UOp::EventLoopCfg(horizon) => {
+                        let with_cfg = matches!(op, UOp::EventLoopCfg(_));
                         let mut k = 0;
                         loop {
                             let st = tick(nucleo.as_mut().unwrap(), gen, &mut tick_notify_base, &mut refm);
+                            if with_cfg && st.running {
+                                nucleo.as_mut().unwrap().update_config(Config::DEFAULT);
+                                exec.log("update_config".into(), 0);
+                            }
                             if !st.running {
                                 let n = nucleo.as_ref().unwrap();
                                 let t = exec.log("quiescent".into(), 0);
